@@ -24,6 +24,7 @@ type Runner struct {
 	// when set, row-wise Apply runs with its completion order forced: pick chooses among the waiting rows
 	pick     func(waiting []int, k int) int
 	realised []int
+	csvDir   string
 	pf       map[string]bool // strings whose ParseFloat result the model may ask for
 	tp       map[[2]string]bool
 }
@@ -163,12 +164,24 @@ func resampleFn(id int) func([]any) any {
 	}
 }
 
-func tempCSVPath() (string, func()) {
-	dir, err := os.MkdirTemp("", "verifcsv")
-	if err != nil {
-		panic(err)
+// csvPath: one file per history, reused by every file-variant step of it (a second export to the same path
+// must replace the first); removed by cleanup
+func (r *Runner) csvPath() (string, func()) {
+	if r.csvDir == "" {
+		dir, err := os.MkdirTemp("", "verifcsv")
+		if err != nil {
+			panic(err)
+		}
+		r.csvDir = dir
 	}
-	return dir + "/frame.csv", func() { os.RemoveAll(dir) }
+	return r.csvDir + "/frame.csv", func() {}
+}
+
+func (r *Runner) cleanup() {
+	if r.csvDir != "" {
+		os.RemoveAll(r.csvDir)
+		r.csvDir = ""
+	}
 }
 
 func okFrame(df *dataframe.DataFrame) Out {
@@ -395,7 +408,7 @@ func (r *Runner) Exec(o Op) (out Out) {
 	case "fromcsv":
 		r.noteCSVFields([]byte(o.Bytes))
 		if o.ViaFile {
-			path, cleanup := tempCSVPath()
+			path, cleanup := r.csvPath()
 			defer cleanup()
 			if err := os.WriteFile(path, []byte(o.Bytes), 0o600); err != nil {
 				panic(err)
@@ -406,7 +419,7 @@ func (r *Runner) Exec(o Op) (out Out) {
 	case "tocsv", "csvroundtrip":
 		var buf bytes.Buffer
 		if o.ViaFile {
-			path, cleanup := tempCSVPath()
+			path, cleanup := r.csvPath()
 			defer cleanup()
 			if err := df.ToCSV(path); err != nil {
 				return errOut(err)
@@ -610,17 +623,41 @@ func (r *Runner) buildOracles(h *Hist) {
 	}
 }
 
+// execTimeout: a library call that has not returned after this long is reported like a panic ("did not
+// return normally"); the largest generated inputs take milliseconds
+const execTimeout = 30 * time.Second
+
+func (r *Runner) execGuard(o Op) (Out, bool) {
+	done := make(chan Out, 1)
+	go func() { done <- r.Exec(o) }()
+	select {
+	case out := <-done:
+		return out, false
+	case <-time.After(execTimeout):
+		return Out{Status: "panic", Msg: "the call did not return within " + execTimeout.String()}, true
+	}
+}
+
 // RunHist executes ops on fresh frames and records every observation.
 func RunHist(tag string, frames []Frame, ops []Op) Hist {
 	r := NewRunner(frames)
 	h := Hist{Tag: tag, Steps: []StepObs{}}
 	h.Pool, _ = r.snapshot()
+	lastPool, lastNrows := r.snapshot()
 	for _, o := range ops {
 		r.Prep(&o)
-		out := r.Exec(o)
+		out, hung := r.execGuard(o)
+		if hung {
+			// the call never came back: the frames may still be in use by it, so they are not read again and
+			// the history ends here
+			h.Steps = append(h.Steps, StepObs{Op: o, Out: out, Pool: lastPool, Nrows: lastNrows})
+			break
+		}
 		pool, nrows := r.snapshot()
+		lastPool, lastNrows = pool, nrows
 		h.Steps = append(h.Steps, StepObs{Op: o, Out: out, Pool: pool, Nrows: nrows})
 	}
 	r.buildOracles(&h)
+	r.cleanup()
 	return h
 }
